@@ -47,14 +47,14 @@ def recheck(replay, text):
 def run(ctx, b, drv):
     pend = base.Pending(ctx)
     base.obligations(ctx, b, pend, ['Engine.v'] + base.rules_files())
-    base.mismatches(ctx, pend, streams.run_parse(ctx, base.scale(ctx, 800), drv, kinds=['valid', 'mutate', 'oneliner']), None)
+    base.mismatches(ctx, pend, streams.run_parse(ctx, base.scale(ctx, 800), drv, kinds=['valid', 'mutate', 'oneliner', 'semantic']), None)
     nfiles = 10 if ctx.tier == 'quick' else 150
     ngen = 200 if ctx.tier == 'quick' else 3000
     for v in streams.versions():
         r = gens.rng(ctx.seed, 'c12', v)
         srcs = list(refpy.stdlib_files(v, nfiles, r))
         for i in range(ngen):
-            kind, code = gens.text_case(ctx.seed, 'c12-%s' % v, i, ['valid', 'mutate', 'valid'])
+            kind, code = gens.text_case(ctx.seed, 'c12-%s' % v, i, ['valid', 'mutate', 'semantic'])
             srcs.append(('gen:%s:%d' % (kind, i), code))
         for i in range(ngen):
             srcs.append(('derived:%d' % i, gens.derived(gens.rng(ctx.seed, 'derived-%s-%s' % ('C12', v), i), v)))
